@@ -1,15 +1,20 @@
 (* C19  Concurrent loading and processing is race-free (at the level of the protocol) and terminates.
    Theorem statements only.  Models: Model/Pipe.v (cpr.Seq under conc's context pool with
    WithCancelOnError/WithFirstError), Model/PipeLoader.v (ParseFileRecursively -> FromStream ->
-   FromModelStream).  Vocabulary: Spec/PipeSpec.v.  Proofs: Proofs/Pipe*.v.
+   FromModelStream), Model/PipeFromPath.v (FromPath's three stages on an include tree),
+   Model/PipeFromPathCycle.v (the same on an arbitrary include graph: parser tasks with ancestor
+   chains).  Vocabulary: Spec/PipeSpec.v, Spec/IncludeGraph.v.  Proofs: Proofs/Pipe*.v,
+   Proofs/IncludeGraphProofs.v.
    Every theorem holds for every number of stages n, number of items m, failure oracle [fails]
    and schedule (list of labels; disabled labels are skipped) - no bound anywhere.
    Not covered by proof (DESIGN.md section 7, C19): data races on Go memory (searched by the race
    detector in checks/c19.py) and the semantics of Go channels/select (assumed as modelled).   *)
 From Coq Require Import List Bool Arith PeanoNat Permutation.
 From Knut Require Import Model.Pipe Model.PipeLoader Model.PipeFromPath Spec.PipeSpec.
+From Knut Require Import Spec.IncludeGraph Model.PipeFromPathCycle.
 From Knut Require Import Proofs.PipeInv Proofs.PipeProofs Proofs.PipeLive Proofs.PipeTrace
-                         Proofs.PipeExact Proofs.PipeLoaderProofs Proofs.PipeFromPathProofs.
+                         Proofs.PipeExact Proofs.PipeLoaderProofs Proofs.PipeFromPathProofs
+                         Proofs.IncludeGraphProofs Proofs.PipeFromPathCycleProofs.
 Import ListNotations.
 
 (* Ownership.  In every reachable state: of two nodes (source 0, stages 1..n, sink n+1) holding
@@ -248,8 +253,10 @@ Proof.
 Qed.
 Print Assumptions C19_load_multiset.
 
-(* A file that includes itself: for every k there is a schedule with k effective steps (k parser
-   tasks spawned) - the loader does not terminate on a cyclic include graph (DESIGN.md F12). *)
+(* A file that includes itself, in the loader model WITHOUT the ancestor chain (the code as pinned,
+   DESIGN.md F12): for every k there is a schedule with k effective steps (k parser tasks spawned) -
+   that loader does not terminate on a cyclic include graph.  The code as it is carries the chain:
+   C19_frompath_cycle_terminates / C19_frompath_cycle_is_error below. *)
 Theorem C19_loader_cycle_unbounded : forall k,
   leffective (fun f => [f]) (fun _ => false) (fun _ => false) (map LSpawn (seq 0 k))
              (linit (fun f => [f]) 0) = k.
@@ -357,6 +364,106 @@ Proof. exists inc01, none, none, is1, 0, addfail_sched. exact builder_error_bloc
 Print Assumptions C19_frompath_builder_error_refuted.
 
 (* ------------------------------------------------------------------------------------------
+   journal.FromPath on an arbitrary include GRAPH (Model/PipeFromPathCycle.v): the parser tasks as
+   they are since fix 3215d33 - every task carries the chain of its ancestors (syntax.parseRec); a
+   task whose file is among its ancestors returns "include cycle" (the errgroup records it and
+   cancels its context); there is no set of loaded files, so a file included from two places gets
+   two tasks.  Stages 2 and 3 as above (with the drain).  Vocabulary: Spec/IncludeGraph.v.
+   [finite_graph inc univ root]: the root is in [univ] and [univ] is closed under include - the graph
+   may be cyclic.  A visit (anc, f) is a file with the chain of files that led to it; [all_visits] are
+   the include paths from the root whose proper prefix is simple, i.e. [simple_paths] (no file twice)
+   and [cycle_closings] (a simple path and one include back into it).
+   [once = false] is the code as it is, [once = true] the seeded change seeded/C06c-load-once-set. *)
+
+(* Termination on every finite include graph, cyclic or not.  The visits are characterised
+   declaratively; every schedule makes at most 6 |visits| + 3 effective steps (with or without the
+   global set of the seeded variant); in the code as it is there are never more parser tasks than
+   visits - simple paths from the root plus their one-edge cycle closings - and, with a builder that
+   does not fail, no reachable state blocks and the canonical scheduler makes the three workers
+   return within the bound.  (Compare C19_loader_cycle_unbounded: without the ancestor check a
+   self-include spawns tasks forever.) *)
+Theorem C19_frompath_cycle_terminates : forall inc bad cbad abad once univ root sched,
+  finite_graph inc univ root ->
+  let visits := all_visits inc univ root in
+  let st := krun inc bad cbad abad once sched (kinit root) in
+  (forall anc f, In (anc, f) visits <-> ipath inc root anc f /\ NoDup anc) /\
+  (forall anc f, In (anc, f) (simple_paths inc univ root) <-> ipath inc root anc f /\ NoDup (anc ++ [f])) /\
+  length visits = length (simple_paths inc univ root) + length (cycle_closings inc univ root) /\
+  keffective inc bad cbad abad once sched (kinit root) <= 6 * length visits + 3 /\
+  (once = false -> length (k_ptasks st) <= length visits) /\
+  (once = false -> (forall f, abad f = false) ->
+   (kfinished st = false -> exists l, In l (klabels st) /\ kenabled inc bad cbad abad once st l = true) /\
+   kfinished (kdrain inc bad cbad abad once (6 * length visits + 3) st) = true).
+Proof. exact frompath_cycle_terminates. Qed.
+Print Assumptions C19_frompath_cycle_terminates.
+
+(* A cycle reachable from the root is an error.  If some include path from the root comes back to a
+   file it has passed, then in the code as it is, with a builder that does not fail: as soon as the
+   parser stage has returned, the first error of the outer pool is an error of the parser stage (an
+   include cycle, or a file that does not parse) that did occur; FromPath never returns the builder
+   (the outcome of a reachable state is never KOk: the builder's result is not used), and once the
+   three workers have returned it returns that error.  Every include-cycle error ever recorded names
+   the chain of an include path from the root whose last file is among the files before it. *)
+Theorem C19_frompath_cycle_is_error : forall inc bad cbad abad univ root sched,
+  finite_graph inc univ root -> (forall f, abad f = false) ->
+  cycle_reachable inc root ->
+  let st := krun inc bad cbad abad false sched (kinit root) in
+  (k_synclosed st = true ->
+     exists e rest, k_werrs st = e :: rest /\ parser_stage e = true /\ kgenuine bad cbad abad e = true) /\
+  (forall files, koutcome_of st <> KOk files) /\
+  (kfinished st = true ->
+     exists e, koutcome_of st = KErr e /\ parser_stage e = true /\ kgenuine bad cbad abad e = true) /\
+  (forall c, In (KWCycle c) (k_werrs st) ->
+     exists anc f, c = anc ++ [f] /\ ipath inc root anc f /\ NoDup anc /\ In f anc).
+Proof. exact frompath_cycle_is_error. Qed.
+Print Assumptions C19_frompath_cycle_is_error.
+
+(* A diamond is loaded twice.  In the code as it is, on any finite graph and whatever the oracles are:
+   if the three workers have returned and no error was recorded then no cycle is reachable from the
+   root, FromPath returns the builder, and the files whose directives were added to it are exactly
+   (as a multiset) the last files of the simple paths from the root - one copy per simple path: a
+   file included from two places is loaded twice.  On a ranked (acyclic) graph that multiset is the
+   include tree [expand] of C19_frompath_loads_once, which is the visit list of C05_layout
+   ([gvisits], Proofs/OrderLayout.v [visits] on numbered files; it is unique), and when no stage
+   function fails no error is recorded. *)
+Theorem C19_frompath_diamond_loads_twice : forall inc bad cbad abad univ root sched,
+  finite_graph inc univ root ->
+  let st := krun inc bad cbad abad false sched (kinit root) in
+  kfinished st = true -> k_werrs st = [] ->
+  koutcome_of st = KOk (k_added st) /\
+  Permutation (k_added st) (map snd (simple_paths inc univ root)) /\
+  cycle_closings inc univ root = [] /\ ~ cycle_reachable inc root /\
+  k_bld st = BDone /\ k_perrs st = [] /\ k_cerrs st = [] /\ k_pcancel st = false /\ k_ccancel st = false.
+Proof. exact frompath_diamond_loads_twice. Qed.
+Print Assumptions C19_frompath_diamond_loads_twice.
+
+Theorem C19_frompath_diamond_loads_twice_ranked : forall inc bad cbad abad rank root sched,
+  (forall f g, In g (inc f) -> rank g < rank f) ->
+  let st := krun inc bad cbad abad false sched (kinit root) in
+  (kfinished st = true -> k_werrs st = [] ->
+     Permutation (k_added st) (expand inc (rank root) root) /\
+     gvisits inc root (expand inc (rank root) root) /\
+     (forall vs, gvisits inc root vs -> Permutation (k_added st) vs)) /\
+  ((forall f, bad f = false) -> (forall f, cbad f = false) -> (forall f, abad f = false) -> k_werrs st = []).
+Proof. exact frompath_diamond_loads_twice_ranked. Qed.
+Print Assumptions C19_frompath_diamond_loads_twice_ranked.
+
+(* The seeded change "global load-once set" (seeded/C06c-load-once-set: after the cycle check a task
+   claims its file in a global set and returns nil when the file is already claimed).  The statement
+   "on a finite graph the outcome of a run that has finished does not depend on the schedule" -
+   true of the code as it is for the error/success class by the two theorems above - is false of
+   it: on the graph 0 -> 1, 2; 1 -> 2; 2 -> 1 one schedule returns the builder with every file
+   loaded once, another one returns "include cycle: 0 -> 1 -> 2 -> 1". *)
+Theorem C19_frompath_load_once_refuted : exists inc univ root sched1 sched2,
+  finite_graph inc univ root /\ cycle_reachable inc root /\
+  let fin s := kdrain inc none none none true (6 * length (all_visits inc univ root) + 3)
+                 (krun inc none none none true s (kinit root)) in
+  koutcome_of (fin sched1) = KOk [0; 1; 2] /\
+  koutcome_of (fin sched2) = KErr (KWCycle [0; 1; 2; 1]).
+Proof. exists g_mutual, [0; 1; 2], 0, once_sched_ok, once_sched_err. exact load_once_refuted. Qed.
+Print Assumptions C19_frompath_load_once_refuted.
+
+(* ------------------------------------------------------------------------------------------
    examples: the hypotheses are satisfiable and the model runs *)
 Definition rr (n : nat) : list label :=   (* one round-robin round over all labels *)
   all_labels n.
@@ -389,6 +496,17 @@ Example C19_example_loader :
   let st := ldrain inc (fun _ => false) (fun _ => false) 40 (linit inc 0) in
   finished st = true /\ got st = [0; 1; 2; 3].
 Proof. vm_compute. split; reflexivity. Qed.
+
+(* the hypotheses of the cycle theorems are satisfiable: a diamond (acyclic, ranked), and mutual
+   includes below the root (a reachable cycle) *)
+Example C19_example_graphs :
+  finite_graph g_diamond [0; 1; 2; 3] 0 /\ (forall f g, In g (g_diamond f) -> (4 - g) < (4 - f)) /\
+  map snd (simple_paths g_diamond [0; 1; 2; 3] 0) = [0; 1; 3; 2; 3] /\ cycle_closings g_diamond [0; 1; 2; 3] 0 = [] /\
+  koutcome_of (kdrain g_diamond none none none false 80 (kinit 0)) = KOk [0; 1; 2; 3; 3] /\
+  finite_graph g_mutual [0; 1; 2] 0 /\ cycle_reachable g_mutual 0 /\
+  cycle_closings g_mutual [0; 1; 2] 0 = [([0; 1; 2], 1); ([0; 2; 1], 2)] /\
+  koutcome_of (kdrain g_mutual none none none false 80 (kinit 0)) = KErr (KWCycle [0; 1; 2; 1]).
+Proof. exact example_graphs. Qed.
 
 Example C19_example_frompath :
   let inc := fun f => match f with 0 => [1; 2] | 1 => [3] | _ => [] end in
